@@ -108,6 +108,15 @@ func hintedPC(name string, pc []*Term) ([]*Term, bool) {
 
 // learnCore runs z3 with unsat-core production on one case and records the core.
 func (d *Discharger) learnCore(ob *Obligation, c obCase, timeout int) bool {
+	termMu.Lock()
+	unlocked := false
+	unlock := func() {
+		if !unlocked {
+			unlocked = true
+			termMu.Unlock()
+		}
+	}
+	defer unlock()
 	sc := &Script{Prelude: d.prelude}
 	// render with named hypotheses: build the text by hand around Render's declarations
 	all := append(append([]*Term{}, c.pc...), Not(c.goal))
@@ -133,6 +142,7 @@ func (d *Discharger) learnCore(ob *Obligation, c obCase, timeout int) bool {
 	out = strings.Replace(out, "(check-sat)", "(check-sat)\n(get-unsat-core)", 1)
 	f := filepath.Join(d.dir, sanitize(ob.Name)+fmt.Sprintf(".core%d.smt2", len(hintTable)))
 	os.WriteFile(f, []byte(out), 0o644)
+	unlock()
 	d.sem <- struct{}{}
 	a, res := runBackend(context.Background(), backends[0], f, timeout)
 	<-d.sem
@@ -146,6 +156,8 @@ func (d *Discharger) learnCore(ob *Obligation, c obCase, timeout int) bool {
 		}
 	}
 	names := regexp.MustCompile(`h[0-9]+`).FindAllString(coreLine, -1)
+	termMu.Lock()
+	defer termMu.Unlock()
 	hintMu.Lock()
 	defer hintMu.Unlock()
 	m := hintTable[ob.Name]
